@@ -133,8 +133,18 @@ class CvarMappingCase(Case):
 
     family = "cvar-constraint/mapping"
 
-    def __init__(self, cid, R=3):
-        self.id, self.R = cid, R
+    def __init__(self, cid, R=3, kind="constraint"):
+        self.id, self.R, self.kind = cid, R, kind
+        if kind == "objective":
+            self.family = "cvar-objective/mapping"
+            self.cfg0 = make_config({
+                "variables": {"initial_values": [0.0]},
+                "realizations": {"weights": [1.0] * R, "realization_min_success": 0},
+                "objectives": {"weights": [1.0, 1.0], "realization_filters": [0, 1]},
+                "realization_filters": [{"method": "cvar-objective", "options": {"sort": [0], "percentile": 0.5}},
+                                        {"method": "cvar-objective", "options": {"sort": [1], "percentile": 0.5}}],
+            })
+            return
         self.cfg0 = make_config({
             "variables": {"initial_values": [0.0]},
             "realizations": {"weights": [1.0] * R, "realization_min_success": 0},
@@ -144,13 +154,13 @@ class CvarMappingCase(Case):
         })
 
     def describe(self):
-        return f"two cvar-constraint filters (sort 0, sort 1), R={self.R}, failures via the objective column"
+        return f"two cvar-{self.kind} filters (sort 0, sort 1), R={self.R}, failures via the objective column"
 
     def inputs(self, env):
         R = self.R
         failed = [env.flag(f"failed_{i}") for i in range(R)]
         env.assume(Or(*[Not(x) for x in failed]))
-        f = env.reals("f", (R, 1), lo=-BOUND, hi=BOUND)
+        f = env.reals("f", (R, 2 if self.kind == "objective" else 1), lo=-BOUND, hi=BOUND)
         c = env.reals("c", (R, 2), lo=-BOUND, hi=BOUND)
         for i in range(R):
             f[i, 0] = SR(f[i, 0].v, failed[i].t)
@@ -161,18 +171,21 @@ class CvarMappingCase(Case):
         from ropt.evaluator import EvaluatorResult
         from .common import plugin_manager
         ee = EnsembleEvaluator(clone_config(self.cfg0), None,
-                               lambda v, ctx: EvaluatorResult(objectives=env.arr(inp["f"]), constraints=env.arr(inp["c"])), plugin_manager())
+                               lambda v, ctx: EvaluatorResult(objectives=env.arr(inp["f"]),
+                                                              constraints=env.arr(inp["c"]) if self.kind == "constraint" else None),
+                               plugin_manager())
         (res,) = ee.calculate(env.const(np.zeros(1)), compute_functions=True, compute_gradients=False)
         return res
 
     def props(self, env, inp, oc):
         if not oc.ok:
             return [("abort_is_too_few_realizations", SB(too_few(oc.exc)))]
-        rows = vals(oc.value.realizations.constraint_weights)
+        obj = self.kind == "objective"
+        rows = vals(oc.value.realizations.objective_weights if obj else oc.value.realizations.constraint_weights)
         props = []
         half = SR(Fraction(1, 2))
         for k in range(2):
-            bad = [SR(inp["c"][i, k].v) for i in range(self.R)]
+            bad = [SR((inp["f"] if obj else inp["c"])[i, k].v) for i in range(self.R)]
             props += [(f"filter{k}.{n}", p) for n, p in cvar_spec(bad, inp["failed"], half, list(rows[k]), self.R)]
         return props
 
@@ -277,6 +290,7 @@ def build_cases(tier):
     for n in range(1, (12 if tier == "quick" else 40) + 1):
         add(RoundingCase, n, check_sum=(tier == "thorough" and n <= 12))
     add(CvarMappingCase)
+    add(CvarMappingCase, kind="objective")
     add(RoundingCase, 5, 2)
     add(RoundingCase, 10, 1)
     return cases
